@@ -18,7 +18,7 @@ RULE = ("Inner applications = generated response recipes of every class (several
         "ASGI body events, repeated headers, odd reason phrases), plus apps raising before / after start or mid-body; wrapped in identity `middleware` stacks of depth "
         "1-3, identity `decorator` stacks of depth 1-3 and a middleware that edits exactly one header; GET/HEAD, Range for files; both interfaces. "
         "Non-trivial = inner app with repeated headers, >=2 body chunks, an empty body, or an error; distinct = (recipe, wrapper, depth, request, interface).")
-RULE += ' Also: 2-4 requests with bodies of different lengths in flight together through one wrapped app; bodies above 1 MiB, latin-1 Set-Cookie lines, headers handed over as a one-shot iterator, a middleware appending to an existing header under a mixed-case name, iterators without close() that raise after the first chunk, a repeated header whose first value is empty, one reused bytearray as ASGI body (the emulators snapshot it when written). Inner iterables that are list / tuple subclasses with close(). WSGI chunks yielded before an inner failure reach the client behind the wrappers as they do without; one header mapping (Headers / MutableHeaders / dict) handed to every response behind an appending wrapper: request 3 like request 1, the bare application unchanged.'
+RULE += ' Also: 2-4 requests with bodies of different lengths in flight together through one wrapped app; bodies above 1 MiB, latin-1 Set-Cookie lines, headers handed over as a one-shot iterator, a middleware appending to an existing header under a mixed-case name, iterators without close() that raise after the first chunk, a repeated header whose first value is empty, one reused bytearray as ASGI body (the emulators snapshot it when written). Inner iterables that are list / tuple subclasses with close(). WSGI chunks yielded before an inner failure reach the client behind the wrappers as they do without; one header mapping (Headers / MutableHeaders / dict) handed to every response behind an appending wrapper: request 3 like request 1, the bare application unchanged. Cookie lines of the inner application in other spellings (no blank after the semicolon, blanks around =, trailing semicolon, nameless); an inner application that reports what it reads from its environ / scope by [key], get(key, default) and in.'
 ASSUMPTIONS = [
     "headers are compared as multisets with case-folded names; reason phrases and body chunking are not compared",
     "Set-Cookie expiry dates are masked (two runs may straddle a second)",
@@ -427,6 +427,51 @@ def shared_headers_object(ctx, rng):
     return case
 
 
+def request_seen_by_inner(ctx, rng):
+    """what the inner application can read from the environ / scope it is called with - by [key], .get(key, default), `in`, iteration -
+    is what the server handed over: behind the wrappers as without them (falsy values are values: '', b'', 0, False, None)"""
+    from baize import asgi, wsgi
+    wrapper = rng.choice(["middleware", "edit"])
+    depth = rng.randrange(1, 3)
+    case = {"inner_application_reports_what_it_reads_from_its_request_mapping": True, "wrapper": wrapper, "depth": depth}
+    WKEYS = ["QUERY_STRING", "SCRIPT_NAME", "PATH_INFO", "wsgi.multithread", "wsgi.multiprocess", "wsgi.run_once", "CONTENT_LENGTH", "HTTP_X_EMPTY", "HTTP_X_ZERO", "REQUEST_METHOD", "absent.key"]
+    AKEYS = ["query_string", "root_path", "path", "client", "server", "method", "scheme", "http_version", "subprotocols", "absent"]
+
+    def winner(environ, start_response):
+        seen = [(k, repr(environ.get(k, "<default>")), k in environ, repr(environ[k]) if k in environ else "<KeyError>") for k in WKEYS]
+        start_response("200 OK", [("Content-Type", "text/plain")])
+        return [repr(seen).encode()]
+
+    async def ainner(scope, receive, send):
+        seen = [(k, repr(scope.get(k, "<default>")), k in scope, repr(scope[k]) if k in scope else "<KeyError>") for k in AKEYS]
+        await send({"type": "http.response.start", "status": 200, "headers": [(b"content-type", b"text/plain")]})
+        await send({"type": "http.response.body", "body": repr(seen).encode()})
+    req = drivers.Req(path=rng.choice([b"/", b"/p"]), query=rng.choice([b"", b"a=1"]), headers=[("X-Empty", ""), ("X-Zero", "0")])
+    for iface, ns, inner in (("wsgi", wsgi, winner), ("asgi", asgi, ainner)):
+        app = inner
+        m = {"middleware": identity_middleware, "edit": edit_middleware}[wrapper](ns, iface)
+        for _ in range(depth):
+            app = m(app)
+        out = []
+        for a in (inner, app):
+            if iface == "wsgi":
+                env = drivers.to_environ(req)
+                env["wsgi.multithread"], env["wsgi.multiprocess"], env["wsgi.run_once"] = False, False, False
+                r = drivers.run_wsgi(a, env)
+            else:
+                sc = drivers.to_scope(req)
+                sc["client"] = None if req.query else sc.get("client")
+                sc["root_path"] = ""
+                r = drivers.run_asgi(a, sc)
+            out.append((r.exc, r.body))
+        ctx.mon("request-seen-by-inner")
+        if out[0][0] is not None:
+            raise drivers.HarnessError(f"bare reporting application failed: {out[0][0]!r}")
+        if out[1] != out[0]:
+            ctx.violation(f"inner-application-reads-another-request|{iface}|{wrapper}", dict(case, iface=iface), f"bare {out[0][1][:300]!r}\nwrapped {str(out[1][0] or out[1][1])[:300]!r}")
+    return case
+
+
 def close_propagation(ctx, rng):
     """the server abandons a WSGI response after k chunks and calls close(): the inner application's iterable must be
     closed behind the middleware exactly as it is without it (PEP 3333: the only way the application learns about it)"""
@@ -556,6 +601,9 @@ def run(ctx):
     for i in range(ctx.scale(12, 600)):
         case = shared_headers_object(ctx, rng)
         ctx.case((repr(case), i))
+    for i in range(ctx.scale(12, 600)):
+        case = request_seen_by_inner(ctx, rng)
+        ctx.case((repr(case), i))
     for i in range(ctx.scale(150, 6000)):
         case = overlapped_requests(ctx, rng)
         ctx.case(repr(case))
@@ -587,6 +635,12 @@ def run(ctx):
 
 
 def replay(ctx, case):
+    if "inner_application_reports_what_it_reads_from_its_request_mapping" in case:
+        rng = ctx.rng("c20-replay")
+        for _ in range(40):
+            request_seen_by_inner(ctx, rng)
+        ctx.case(1)
+        return
     if "one_header_mapping_given_to_every_response" in case:
         rng = ctx.rng("c20-replay")
         for _ in range(40):
